@@ -36,6 +36,8 @@ class ExactAlgorithm(ExactAlgorithmBase):
         """
         super().__init__(optimize)
         try:
+            # constructing ExactAlgorithmCplex never fails: the availability of CPLEX must be tested explicitly
+            import cplex  # pylint: disable=import-outside-toplevel,unused-import
             self._alg = ExactAlgorithmCplex(optimize=optimize)
         except ModuleNotFoundError:
             self._alg = ExactAlgorithmPulp()
